@@ -103,6 +103,24 @@ def r4_who_may_send(ck, cx):
     allowed_writers = {fe[3] for fe in FRONTENDS} | {'_send_'}
     exec_names = {fe[2] for fe in FRONTENDS}
     n = 0
+
+    def execute_only(c, name, seen=()):
+        """a private helper that is only ever *called* (never passed around) and only from execute or from other such helpers"""
+        if name in exec_names:
+            return True
+        if name in seen or not name.startswith('_'):
+            return False
+        callers, escapes = set(), False
+        for k in cx.idx.mro(c):
+            for g in k.methods.values():
+                for node in ast.walk(g.node):
+                    if isinstance(node, ast.Attribute) and node.attr == name and U(node.value) == 'self' and isinstance(node.ctx, ast.Load):
+                        par = getattr(node, '_parent', None)
+                        if isinstance(par, ast.Call) and par.func is node:
+                            callers.add(g.name)
+                        else:
+                            escapes = True
+        return bool(callers) and not escapes and all(execute_only(c, g, seen + (name,)) for g in callers)
     for mn in SERVER_MODULES:
         m = cx.idx.mod(mn)
         ck.saw('modules', mn)
@@ -116,7 +134,7 @@ def r4_who_may_send(ck, cx):
                               message='%s writes to the transport outside send/_send' % fn.qn)
                     if isinstance(node, ast.Call) and isinstance(node.func, ast.Attribute) and U(node.func.value) == 'self':
                         if node.func.attr in allowed_writers and node.func.attr != '_send_':
-                            ck.ob('R4', fn.qn, 'send is called only from execute', fn.name in exec_names,
+                            ck.ob('R4', fn.qn, 'send is called only from execute (or a private helper only execute calls)', fn.name in exec_names or execute_only(c, fn.name),
                                   detail='send-called-from %s' % fn.name, loc=cx.floc(fn, node),
                                   message='%s calls %s outside execute' % (fn.qn, node.func.attr))
                         if node.func.attr == '_send_':
